@@ -374,7 +374,24 @@ impl Property for C05 {
             None => Verdict::Discard("unreadable-case"),
         }
     }
-    fn extra_stages(&self, tier: Tier, _seed: u64, stats: &mut Stats) -> Option<Failure> {
-        enumerate_exhaustive(tier.pick(5, 6), stats)
+    fn extra_stages(&self, tier: Tier, seed: u64, stats: &mut Stats) -> Option<Failure> {
+        if let Some(f) = enumerate_exhaustive(tier.pick(5, 6), stats) {
+            return Some(f);
+        }
+        if tier == Tier::Thorough {
+            // stage C: coverage-guided fuzzing on raw bytes, same oracle inside the target
+            return crate::fuzzstage::run_fuzz_stage("parse_diff", 400_000, 8, seed, stats, &|bytes| {
+                let text = String::from_utf8_lossy(bytes).to_string();
+                let class = match crate::fuzz_api::parse_diff_verdict(&text) {
+                    Ok(()) => return None,
+                    Err((class, _)) => class,
+                };
+                let min = crate::fuzzstage::ddmin(&text, &|t| {
+                    matches!(crate::fuzz_api::parse_diff_verdict(t), Err((c, _)) if c == class)
+                });
+                check_text(&min).err()
+            });
+        }
+        None
     }
 }
